@@ -40,6 +40,17 @@ type AcqSite struct {
 	Entries []string `json:"entries"` // (some of) the entry points from which the site is reached with these locks
 }
 
+// LockExit: what an entry point of the library (exported function / method, function used as a value) may still hold
+// when it returns to its caller — code outside the library, which cannot release it.  One row per entry point whose
+// analysis touched a mutex at all; Held is empty unless some return path (panics excluded) leaves with a mutex that
+// was acquired on that path and for which no deferred unlock is certainly registered.  A private lock helper that
+// returns with the lock taken is no entry point: what it holds is held by its callers, and it is their returns that count.
+type LockExit struct {
+	Func    string              `json:"func"`
+	Held    []string            `json:"held"`    // "cell:mode"
+	Returns map[string][]string `json:"returns"` // return position -> what may be held there
+}
+
 type mayState struct {
 	held map[string]string // cell -> "R" | "W" | "RW"
 	def  map[string]bool   // unlocks certainly deferred
@@ -87,7 +98,9 @@ type acqAn struct {
 	notes   map[string]bool
 	depth   int
 	entry   string
-	summary map[string]bool // cells that stand for several objects
+	summary map[string]bool                // cells that stand for several objects
+	touched map[string]bool                // entry points whose analysis met a mutex operation
+	retInfo map[string]map[string][]string // context -> return position -> may-held there (non-empty only)
 }
 
 // summaryAddr: the address is reached through an index / map element / phi: the cell names several objects
@@ -193,6 +206,7 @@ func (a *acqAn) analyze(f *ssa.Function, held map[string]string, bind map[ssa.Va
 	}
 	in[0] = mayState{held: copyHeld(held), def: map[string]bool{}}
 	exit := mayState{top: true}
+	rets := map[string][]string{}
 	var defers []*ssa.Defer
 	for _, b := range f.Blocks {
 		for _, ins := range b.Instrs {
@@ -234,6 +248,7 @@ func (a *acqAn) analyze(f *ssa.Function, held map[string]string, bind map[ssa.Va
 					if summaryAddr(cc.Args[0], 0) {
 						a.summary[cell] = true
 					}
+					a.touched[a.entry] = true
 					switch m {
 					case "Lock":
 						a.row(f, ins, cell, "W", h)
@@ -259,6 +274,16 @@ func (a *acqAn) analyze(f *ssa.Function, held map[string]string, bind map[ssa.Va
 				}
 			case *ssa.Return:
 				exit = joinMay(exit, mayState{held: copyHeld(h), def: map[string]bool{}})
+				if len(h) > 0 {
+					var hl []string
+					for k, m := range h {
+						hl = append(hl, k+":"+m)
+					}
+					sort.Strings(hl)
+					rets[a.an.posOf(ins)] = hl
+				} else {
+					delete(rets, a.an.posOf(ins))
+				}
 			}
 		}
 		return mayState{held: h, def: def}
@@ -294,6 +319,7 @@ func (a *acqAn) analyze(f *ssa.Function, held map[string]string, bind map[ssa.Va
 		res = exit.held
 	}
 	a.memo[key] = res
+	a.retInfo[key] = rets
 	return res
 }
 
@@ -376,11 +402,30 @@ func (a *acqAn) call(f *ssa.Function, c *accCtx, ins ssa.Instruction, cc *ssa.Ca
 
 // acquisitions: the table, from the same entry points as the access table
 func (an *accAn) acquisitions(roots []*ssa.Function, out *Out) {
-	a := &acqAn{an: an, rows: map[string]*AcqSite{}, memo: map[string]map[string]string{}, busy: map[string]bool{}, notes: map[string]bool{}, summary: map[string]bool{}}
+	a := &acqAn{an: an, rows: map[string]*AcqSite{}, memo: map[string]map[string]string{}, busy: map[string]bool{}, notes: map[string]bool{}, summary: map[string]bool{},
+		touched: map[string]bool{}, retInfo: map[string]map[string][]string{}}
+	out.LockExits = []LockExit{}
 	for _, f := range roots {
 		a.entry = fnName(f)
-		a.analyze(f, map[string]string{}, map[ssa.Value]string{}, map[ssa.Value]fnBind{})
+		held := a.analyze(f, map[string]string{}, map[ssa.Value]string{}, map[ssa.Value]fnBind{})
+		name := f.Name()
+		if name == "init" || strings.HasPrefix(name, "init#") {
+			continue // package initialisation returns to the runtime once, before any goroutine of the caller exists
+		}
+		if !a.touched[a.entry] && len(held) == 0 {
+			continue
+		}
+		le := LockExit{Func: an.libPkgs[f.Pkg] + "." + a.entry, Held: []string{}, Returns: map[string][]string{}}
+		for k, m := range held {
+			le.Held = append(le.Held, k+":"+m)
+		}
+		sort.Strings(le.Held)
+		for pos, hl := range a.retInfo[a.ctxKey(f, map[string]string{}, map[ssa.Value]string{}, map[ssa.Value]fnBind{})] {
+			le.Returns[pos] = hl
+		}
+		out.LockExits = append(out.LockExits, le)
 	}
+	sort.Slice(out.LockExits, func(i, j int) bool { return out.LockExits[i].Func < out.LockExits[j].Func })
 	out.Acquisitions = []AcqSite{}
 	for _, r := range a.rows {
 		if r.MayHeld == nil {
